@@ -19,7 +19,8 @@ ASSUMPTIONS = ["the documented modern equivalents: [BranchL_M] -> [(''|=|#)Branc
                "legacy atoms are spelled as valid SMILES bracket atoms (lower-case non-aromatic letters are outside the quantifier)"]
 ATOMS_EXPL = ['C@@H', 'C@H', 'N+', 'O-', 'Fe++', 'Fe+2', 'N+1', 'C', 'CH', 'CH1', 'CH2', 'CH0', '13CH2', '13C', 'S+', 'H', 'N', 'B-',
               'N--', 'O--', 'Cu+2', 'Fe+++', 'Fe+3', 'C@@', 'C@', 'C:1', 'CH3:12', '2H', 'Se', 'Si', 'NH4+', 'C-', 'C+0', '0C', 'OH-',
-              'P@@', 'Na+', 'Cl-', 'Br', 'I+3', 'Zn+2', 'NH+', 'NH2+', 'nH', 'c', 'se', 'Xx', 'C@@@', 'C+-', 'CH12', '', 'C++2']
+              'P@@', 'Na+', 'Cl-', 'Br', 'I+3', 'Zn+2', 'NH+', 'NH2+', 'NH+1', 'CH-1', 'C@H+1', 'NH3+1', 'OH+1', 'CH2-1', 'C@@H-',
+              'NH+2', 'BH-1', 'SH+', 'PH+1', '13CH+1', 'NH:2', 'CH+:3', 'nH', 'c', 'se', 'Xx', 'C@@@', 'C+-', 'CH12', '', 'C++2']
 MODERN = ['[C]', '[=C]', '[N]', '[O]', '[F]', '[C@@H1]', '[N+1]', '[epsilon]', '[nop]', '[S]', '[P]', '[=S]', '[C]', '[C]', '[S]',
           '[#N]', '[=O]', '[Cl]', '[13CH2]', '[Fe+2]', '[/C]', '[\\C]', '[O-1]']
 # every modern branch / ring symbol: the flag must not touch any of them
